@@ -44,13 +44,21 @@ func (s *vpSource) GetHeader(index uint32) (Header, error) {
 func (s *vpSource) GetURI() string    { return s.uri }
 func (s *vpSource) SetURI(uri string) { s.uri = uri }
 
+// vpHarnessNet: a network for which the source overlay adds one hard-coded
+// filter-header checkpoint (chainsync/filtercontrol.go, regenerated per run):
+// height vpFCheckpointHeight must carry vpFCheckpoint.
+const vpHarnessNet = wire.BitcoinNet(0x76700001)
+const vpFCheckpointHeight = 2
+
+var vpFCheckpoint = chainhash.Hash{0xf0, vpFCheckpointHeight}
+
 func vpParams() chaincfg.Params {
 	g := wire.BlockHeader{Version: 4, Timestamp: time.Unix(1296688602, 0), Bits: vpPowLimitBits}
 	vpGrind(&g, true)
 	gh := g.BlockHash()
 	return chaincfg.Params{
 		Name:                     "vp",
-		Net:                      wire.TestNet,
+		Net:                      vpHarnessNet,
 		GenesisBlock:             &wire.MsgBlock{Header: g},
 		GenesisHash:              &gh,
 		PowLimit:                 vpPowLimit,
@@ -137,10 +145,19 @@ func VerifH_C14_import() {
 	}
 	blkSrc := &vpSource{uri: "blocks"}
 	fltSrc := &vpSource{uri: "filters"}
+	// the filter-header file may carry a wrong value at one position
+	fwrong := -1
+	if vpParam("fcorrupt", 1) == 1 && vpRange("filterHeaderWrong", 0, 1) == 1 {
+		fwrong = vpRange("filterHeaderWrongAt", 0, count-1)
+	}
 	for i := 0; i < count; i++ {
 		hc := fileHdrs[i]
 		blkSrc.headers = append(blkSrc.headers, &blockHeader{BlockHeader: headerfs.BlockHeader{BlockHeader: &hc, Height: uint32(start + i)}})
-		fltSrc.headers = append(fltSrc.headers, &filterHeader{FilterHeader: headerfs.FilterHeader{FilterHash: filters[start+i], Height: uint32(start + i)}})
+		fh := filters[start+i]
+		if i == fwrong {
+			fh[7] ^= 0x5a
+		}
+		fltSrc.headers = append(fltSrc.headers, &filterHeader{FilterHeader: headerfs.FilterHeader{FilterHash: fh, Height: uint32(start + i)}})
 	}
 	mk := func(t headerfs.HeaderType, size int) *headerMetadata {
 		return &headerMetadata{importMetadata: &importMetadata{networkMagic: params.Net, headerType: t, startHeight: uint32(start)},
@@ -206,7 +223,7 @@ func VerifH_C14_import() {
 			vpAssert(bs.hdrs[i] == fileHdrs[i-start], "success:new-block-headers-equal-file")
 		}
 		for i := len(preF); i < len(fs.hashes) && i >= start && i-start < count; i++ {
-			vpAssert(fs.hashes[i] == filters[i], "success:new-filter-headers-equal-file")
+			vpAssert(fs.hashes[i] == fltSrc.headers[i-start].(*filterHeader).FilterHash, "success:new-filter-headers-equal-file")
 		}
 		if len(fs.hashes) > len(preF) {
 			vpAssert(fs.tipBlk == bs.hdrs[len(fs.hashes)-1].BlockHash(), "success:filter-tip-names-its-block")
@@ -214,7 +231,14 @@ func VerifH_C14_import() {
 		// repeating the import changes nothing
 		nb, nf := len(bs.hdrs), len(fs.hashes)
 		_, err2 := imp.Import(context.Background())
-		vpAssert(err2 == nil, "second-import-succeeds")
+		if fwrong < 0 {
+			vpAssert(err2 == nil, "second-import-succeeds")
+		} else if err2 != nil {
+			// a file that disagrees with data one store already held may be
+			// refused the second time round; the property only asks that the
+			// repeat changes nothing
+			vpNote("second-import-of-a-disagreeing-file-refused")
+		}
 		vpAssert(len(bs.hdrs) == nb && len(fs.hashes) == nf, "second-import-changes-nothing")
 	} else {
 		vpReach("import-failed")
@@ -223,6 +247,11 @@ func VerifH_C14_import() {
 			// (a failure must only leave the stores consistent); recorded as a note
 			vpNote("honest-file-refused")
 		}
+	}
+	// ---- every stored filter header equals the hard-coded checkpoint at its height ----
+	if len(fs.hashes) > vpFCheckpointHeight {
+		vpReach("filter-checkpoint-height-stored")
+		vpAssert(fs.hashes[vpFCheckpointHeight] == vpFCheckpoint, "stored-filter-header-equals-hard-coded-checkpoint")
 	}
 	// ---- in every case: what is stored is valid, linked and mutually consistent ----
 	okPrefix := len(bs.hdrs) >= 1 && len(fs.hashes) >= 1
